@@ -1,43 +1,77 @@
 #!/usr/bin/env python3
 """Run the checks against the seeded changes in /verif/seeded/<id>/ (patch.diff, meta.json).
 
-For each selected entry: `git -C /repo apply patch.diff`, run `./check <property> --tier quick`,
-expect exit 1 with a VIOLATION line, then `git -C /repo checkout -- .`.  Never leaves /repo dirty.
-usage: tools/seeded.py [ids...]      (default: all)
+Default mode: a scratch copy of /repo/src gets the patch (`patch -p1`), the check runs with
+PYTHONPATH pointing at the copy (the editable install is shadowed), the copy is removed.
+/repo itself is never touched, so several entries can run in parallel (-j N).
+--in-repo: `git -C /repo apply patch.diff`, run, `git -C /repo checkout -- .` (sequential).
+usage: tools/seeded.py [-j N] [--in-repo] [--prop Cxx] [ids...]      (default: all)
 """
 import json
 import os
+import shutil
 import subprocess
 import sys
+import tempfile
 import time
+from concurrent.futures import ThreadPoolExecutor
 
 ROOT = os.path.dirname(os.path.dirname(os.path.abspath(__file__)))
 
 
+def run_one(d, pid, in_repo):
+    p = os.path.join(ROOT, "seeded", d)
+    env = dict(os.environ)
+    tmp = None
+    t0 = time.time()
+    try:
+        if in_repo:
+            subprocess.check_call(["git", "-C", "/repo", "apply", os.path.join(p, "patch.diff")])
+        else:
+            tmp = tempfile.mkdtemp(prefix="seed_%s_" % d)
+            shutil.copytree("/repo/src", os.path.join(tmp, "src"))
+            subprocess.check_call(["patch", "-s", "-p1", "-i", os.path.join(p, "patch.diff")], cwd=tmp)
+            env["PYTHONPATH"] = os.path.join(tmp, "src")
+        r = subprocess.run([os.path.join(ROOT, "check"), pid, "--tier", "quick"], capture_output=True, text=True, cwd=ROOT, env=env)
+    finally:
+        if in_repo:
+            subprocess.check_call(["git", "-C", "/repo", "checkout", "--", "."])
+        if tmp:
+            shutil.rmtree(tmp, ignore_errors=True)
+    viol = [l for l in r.stdout.splitlines() if l.startswith("VIOLATION")]
+    keys = [l.strip() for l in r.stdout.splitlines() if l.strip().startswith("key=")][:2]
+    last = r.stdout.strip().splitlines()[-1][:150] if r.stdout.strip() else ""
+    print("%-22s %s exit=%d violations=%d %.0fs %s" % (d, pid, r.returncode, len(viol), time.time() - t0, keys[0][:170] if keys else last), flush=True)
+    return (d, pid, r.returncode)
+
+
 def main():
-    sel = sys.argv[1:]
-    rows = []
+    args = sys.argv[1:]
+    jobs_n, in_repo, prop = 1, False, None
+    while args and args[0].startswith("-"):
+        a = args.pop(0)
+        if a == "-j":
+            jobs_n = int(args.pop(0))
+        elif a == "--in-repo":
+            in_repo = True
+        elif a == "--prop":
+            prop = args.pop(0)
+    sel = args
+    work = []
     for d in sorted(os.listdir(os.path.join(ROOT, "seeded"))):
         p = os.path.join(ROOT, "seeded", d)
         if not os.path.isfile(os.path.join(p, "patch.diff")) or (sel and d not in sel):
             continue
         meta = json.load(open(os.path.join(p, "meta.json")))
+        props = [prop] if prop else (meta["property"] if isinstance(meta["property"], list) else [meta["property"]])
+        work += [(d, pid) for pid in props]
+    if in_repo:
         if subprocess.run(["git", "-C", "/repo", "status", "--porcelain"], capture_output=True, text=True).stdout.strip():
             print("refusing: /repo has uncommitted changes")
             return 2
-        props = meta["property"] if isinstance(meta["property"], list) else [meta["property"]]
-        try:
-            subprocess.check_call(["git", "-C", "/repo", "apply", os.path.join(p, "patch.diff")])
-            for pid in props:
-                t0 = time.time()
-                r = subprocess.run([os.path.join(ROOT, "check"), pid, "--tier", "quick"], capture_output=True, text=True, cwd=ROOT)
-                viol = [l for l in r.stdout.splitlines() if l.startswith("VIOLATION")]
-                keys = [l.strip() for l in r.stdout.splitlines() if l.strip().startswith("key=")][:2]
-                rows.append((d, pid, r.returncode, len(viol), time.time() - t0, keys))
-                print("%-28s %s exit=%d violations=%d %.0fs %s" % (d, pid, r.returncode, len(viol), time.time() - t0,
-                                                                 (keys[0][:150] if keys else r.stdout.strip().splitlines()[-1][:150] if r.stdout.strip() else "")), flush=True)
-        finally:
-            subprocess.check_call(["git", "-C", "/repo", "checkout", "--", "."])
+        jobs_n = 1
+    with ThreadPoolExecutor(max_workers=jobs_n) as ex:
+        rows = list(ex.map(lambda w: run_one(w[0], w[1], in_repo), work))
     missed = [r for r in rows if r[2] != 1]
     print("%d runs, %d detected, %d missed: %s" % (len(rows), len(rows) - len(missed), len(missed), [(r[0], r[1]) for r in missed]))
     return 0
